@@ -44,6 +44,7 @@ static void print_state(void)
     printf(" | spin");
     for (i = 0; i < n; ++i) printf(" %ld", (long) sh.spin_locks[i]);
     printf("\n");
+    fflush(stdout);
 }
 
 static void do_init(char *args)
